@@ -295,6 +295,11 @@ func init() {
 			e.env.explore = a[0].(*Term).IsTrue()
 			return nil, nil
 		},
+		"verifScheduleAtomic": func(e *Exec, fn *ssa.Function, a []Value) (Value, *GoPanic) {
+			e.envInit()
+			e.env.exploreAtomic = a[0].(*Term).IsTrue()
+			return nil, nil
+		},
 		"verifOverride": func(e *Exec, fn *ssa.Function, a []Value) (Value, *GoPanic) {
 			// replace a callee by its contract (assume-guarantee): the contract is proved by a separate harness
 			name := e.argStr(a[0])
@@ -1188,7 +1193,7 @@ func (e *Exec) atomicLoad(p *Ptr) Value {
 // scheduling point as well (a check-then-act sequence built from an atomic load and a later store
 // can be split there; the operation itself is never split).
 func (e *Exec) atomicYield() {
-	if e.env != nil && e.env.explore {
+	if e.env != nil && e.env.explore && e.env.exploreAtomic {
 		e.yield()
 	}
 }
